@@ -55,6 +55,61 @@ theorem cfor_consumes_break_continue (n : Nat) (c p : Option Expr) (b : Stmt) (s
       · simp [h0] at *
       · split <;> simp_all [NoLoopSig]
 
+/-- ... and with ANY init statement that does not itself end in `break` / `continue` -/
+theorem cfor_consumes_break_continue_any_init (n : Nat) (i : Stmt) (c p : Option Expr) (b : Stmt) (s : St) (hs : s.err = none)
+    (hi : ∀ s', s'.err = none → NoLoopSig (execStmt n i s')) :
+    NoLoopSig (execStmt (n + 1) (.cfor i c p b) s) := by
+  rw [execStmt.eq_def]
+  simp only []
+  split
+  · simp [NoLoopSig]
+  · have hS : ({ (s.poll.2.newScope s.poll.2.cur).2 with cur := (s.poll.2.newScope s.poll.2.cur).1 } : St).err = none := by
+      simpa [newScope_err, poll_err] using hs
+    have key : ∀ s2 : St, NoLoopSig s2 →
+        NoLoopSig (if s2.err.isSome = true then { s2 with cur := s.poll.2.cur } else
+          match (cforIter n c p b s2).err with
+          | some .ret => { cforIter n c p b s2 with cur := s.poll.2.cur }
+          | some .interrupt => { cforIter n c p b s2 with cur := s.poll.2.cur }
+          | _ => { cforIter n c p b s2 with rv := nilRV, cur := s.poll.2.cur }) := by
+      intro s2 h2
+      split
+      · exact ⟨h2.1, h2.2⟩
+      · next hnone =>
+        have hnone' : s2.err = none := by cases h : s2.err <;> simp_all
+        have := cforIter_consumes c p b n s2 hnone'
+        obtain ⟨h1, h3⟩ := this
+        split <;> simp_all [NoLoopSig]
+    have hS' : (s.poll.2.newScope s.poll.2.cur).2.err = none := by simpa [newScope_err, poll_err] using hs
+    split
+    · exact key _ ⟨by simp [hS'], by simp [hS']⟩
+    · exact key _ (hi _ hS)
+
+/-- the init statement of a `for` is a `var` or an assignment statement (the grammar admits nothing
+else): neither ever yields a control sentinel -/
+theorem binding_stmts_never_signal (n : Nat) (s : St) (hs : NoSig s) :
+    (∀ names es, NoSig (execStmt n (.varS names es) s)) ∧ (∀ l r, NoSig (execStmt n (.lets l r) s)) := by
+  cases n with
+  | zero => simp [execStmt, outOfFuel]
+  | succ n =>
+    have ih := sig_all n
+    constructor
+    · intro names es
+      rw [execStmt.eq_def]
+      sig_grind ih
+    · intro l r
+      have ha := noSig_assignAll n l
+      rw [execStmt.eq_def]
+      sig_grind ih
+
+/-- `for var x = e; c; p { b }` and `for x = e; c; p { b }`: the forms the grammar admits -/
+theorem cfor_with_init_consumes_break_continue (n : Nat) (c p : Option Expr) (b : Stmt) (s : St) (hs : s.err = none) :
+    (∀ names es, NoLoopSig (execStmt (n + 1) (.cfor (.varS names es) c p b) s)) ∧
+    (∀ l r, NoLoopSig (execStmt (n + 1) (.cfor (.lets l r) c p b) s)) :=
+  ⟨fun names es => cfor_consumes_break_continue_any_init n _ c p b s hs
+      (fun s' h' => noLoopSig_of_noSig _ ((binding_stmts_never_signal n s' (noSig_of_none _ h')).1 names es)),
+   fun l r => cfor_consumes_break_continue_any_init n _ c p b s hs
+      (fun s' h' => noLoopSig_of_noSig _ ((binding_stmts_never_signal n s' (noSig_of_none _ h')).2 l r))⟩
+
 theorem forin_list_consumes_break_continue (n : Nat) (v : String) (b : Stmt) (xs : List Val) (s : St)
     (hs : s.err = none) : NoLoopSig (forSlice n v b xs s) := forSlice_consumes v b n xs s hs
 
